@@ -76,17 +76,34 @@ pub struct Straggler {
     /// probability 1/`db_one_in` for a random number of steps up to `db_max`
     pub db_one_in: u64,
     pub db_max: u64,
+    /// slow-writer mode: the trigger events are the publications of an attempt (`publish`,
+    /// `unpublish`, `mark_est`) instead: a worker is frozen between two of its publications
+    pub mid_publish: bool,
+    /// slow-writer mode: (thread, multi-version reads other threads may still perform before the
+    /// writer resumes) - the gap between two publications is measured in reader progress, not steps
+    pub gap: Vec<(usize, u64)>,
+    /// targeted slow-writer: freeze the worker that performs the `at.1`-th publication (counted
+    /// from 0 over all attempts) of transaction `at.0` until the other threads have performed `at.2`
+    /// multi-version reads
+    pub at: Option<(i64, u64, u64)>,
+    pub publications: u64,
 }
 impl Straggler {
+    pub fn slow_writer_at(rng: Rng, tx: i64, ith: u64, reads: u64) -> Self {
+        Straggler { at: Some((tx, ith, reads)), db_one_in: u64::MAX, ..Self::slow_writer(rng, 1, 1) }
+    }
     pub fn slow_db(mut rng: Rng, one_in: u64, max: u64) -> Self {
         let stay = rng.range(20, 85);
-        Straggler { inner: RandomWalk { rng, stay }, freeze_at: Vec::new(), duration: Vec::new(), step: 0, frozen: Vec::new(), db_one_in: one_in, db_max: max }
+        Straggler { inner: RandomWalk { rng, stay }, freeze_at: Vec::new(), duration: Vec::new(), step: 0, frozen: Vec::new(), db_one_in: one_in, db_max: max, mid_publish: false, gap: Vec::new(), at: None, publications: 0 }
+    }
+    pub fn slow_writer(rng: Rng, one_in: u64, max: u64) -> Self {
+        Straggler { mid_publish: true, ..Self::slow_db(rng, one_in, max) }
     }
     pub fn new(mut rng: Rng, n: usize, horizon: u64) -> Self {
         let freeze_at = (0..n).map(|_| rng.below(horizon.max(1))).collect();
         let duration = (0..n).map(|_| 20 + rng.below(horizon.max(1))).collect();
         let stay = rng.range(20, 85);
-        Straggler { inner: RandomWalk { rng, stay }, freeze_at, duration, step: 0, frozen: Vec::new(), db_one_in: 0, db_max: 0 }
+        Straggler { inner: RandomWalk { rng, stay }, freeze_at, duration, step: 0, frozen: Vec::new(), db_one_in: 0, db_max: 0, mid_publish: false, gap: Vec::new(), at: None, publications: 0 }
     }
 }
 impl Strategy for Straggler {
@@ -104,13 +121,42 @@ impl Strategy for Straggler {
         }
         if self.db_one_in > 0 {
             if let Some(ev) = last {
-                if (ev.kind.starts_with("db_") || ev.kind == "val_enter") && ev.tid >= 0 && threads[ev.tid as usize].role == "worker" && self.inner.rng.below(self.db_one_in) == 0 {
+                if let Some((tx, ith, reads)) = self.at {
+                    if matches!(ev.kind, "publish" | "unpublish" | "mark_est") && ev.tid >= 0 && ev.a[0] == tx {
+                        if self.publications == ith && threads[ev.tid as usize].role == "worker" {
+                            self.frozen.push((ev.tid as usize, step + 400));
+                            self.gap.push((ev.tid as usize, reads));
+                        }
+                        self.publications += 1;
+                    }
+                }
+                let trigger = if self.mid_publish { matches!(ev.kind, "publish" | "unpublish" | "mark_est") } else { ev.kind.starts_with("db_") || ev.kind == "val_enter" };
+                if trigger && self.at.is_none() && ev.tid >= 0 && threads[ev.tid as usize].role == "worker" && self.inner.rng.below(self.db_one_in) == 0 {
                     let d = 10 + self.inner.rng.below(self.db_max.max(1));
                     self.frozen.push((ev.tid as usize, step + d));
+                    if self.mid_publish && self.inner.rng.below(2) == 0 {
+                        let reads = 1 + self.inner.rng.below(8);
+                        self.gap.push((ev.tid as usize, reads));
+                    }
+                }
+                if self.mid_publish && ev.kind == "mv_read" {
+                    // a frozen writer resumes as soon as the others have done its quota of reads
+                    for g in self.gap.iter_mut() {
+                        if g.0 as i64 != ev.tid {
+                            g.1 = g.1.saturating_sub(1);
+                        }
+                    }
+                    let done: Vec<usize> = self.gap.iter().filter(|g| g.1 == 0).map(|g| g.0).collect();
+                    self.gap.retain(|g| g.1 > 0);
+                    self.frozen.retain(|(t, _)| !done.contains(t));
                 }
             }
         }
         self.frozen.retain(|&(_, until)| until > step);
+        if !self.gap.is_empty() {
+            let frozen = &self.frozen;
+            self.gap.retain(|g| frozen.iter().any(|(t, _)| *t == g.0));
+        }
         let pool: Vec<usize> = runnable.iter().copied().filter(|t| !self.frozen.iter().any(|(f, _)| f == t)).collect();
         // everybody else spinning or blocked: the straggler is the only one that can make progress
         if pool.is_empty() || pool.iter().all(|&t| threads[t].spin >= 3) {
